@@ -4,7 +4,7 @@ from props import seqcases, C03 as _C03
 LEVEL = "other"
 TRUSTED = []
 LEVEL_TEXT = "DFCC contract proofs over the full value range for Int_Cmp, Float_Cmp (NaN excluded), String_Cmp, Type_Cmp and the six predicates; harness proofs through the real dispatch for Int, Float and plain structs (byte-wise, TypeError for different types); Array, List and Tuple cmp as bounded lexicographic checks (lengths <= 3/4). The scalar part is proof-level, the container part bounded, hence 'other'."
-NOTE = 'libc strcmp assumed to be the unsigned-byte lexicographic order; Tree/Table cmp not under contract'
+NOTE = 'libc strcmp assumed to be the unsigned-byte lexicographic order; String order also checked against its definition on texts of length <= 2 with symbolic bytes (independent of how it is computed); default cmp also on a 12-byte type; Table cmp not under contract'
 TECHNIQUE = "CBMC code contracts (DFCC) on the real Int_Cmp/Float_Cmp/predicates"
 
 EXPLANATION = LEVEL_TEXT
